@@ -176,6 +176,27 @@ func (p *provProfile) Run(s *Sim) {
 		must(s.store.Create(np, nil))
 		p.pools = append(p.pools, np.Name)
 	}
+	// nodes Karpenter does not manage (brought up by someone else): they carry only the labels their owner set, so
+	// well-known labels such as zone or capacity type may be missing
+	if ch.Pick("prov.byo", 3) == 0 {
+		for i := 0; i < 1+ch.Pick("prov.nbyo", 2); i++ {
+			name := fmt.Sprintf("byo-%d", i)
+			n := &corev1.Node{ObjectMeta: metav1.ObjectMeta{Name: name, Labels: map[string]string{corev1.LabelHostname: name, corev1.LabelOSStable: "linux"}}}
+			if ch.Pick("prov.byoarch", 2) == 0 {
+				n.Labels[corev1.LabelArchStable] = "amd64"
+			}
+			if ch.Pick("prov.byozone", 3) != 0 {
+				n.Labels[corev1.LabelTopologyZone] = p.zones[0]
+			}
+			n.Spec.ProviderID = "byo://" + name
+			cpu := []string{"4", "16"}[ch.Pick("prov.byocpu", 2)]
+			n.Status.Capacity = corev1.ResourceList{corev1.ResourceCPU: resource.MustParse(cpu), corev1.ResourceMemory: resource.MustParse("32Gi"), corev1.ResourcePods: resource.MustParse("30")}
+			n.Status.Allocatable = n.Status.Capacity.DeepCopy()
+			n.Status.Conditions = []corev1.NodeCondition{{Type: corev1.NodeReady, Status: corev1.ConditionTrue, LastTransitionTime: s.store.now()}}
+			must(s.store.Create(n, nil))
+			s.Stat("env.node.unmanaged")
+		}
+	}
 	for i := 0; i < ch.Pick("prov.nds", 4); i++ {
 		ds := p.genDaemonSet(fmt.Sprintf("ds-%d", i))
 		p.dsTemplates = append(p.dsTemplates, must(s.store.Create(ds, nil)).(*appsv1.DaemonSet))
@@ -686,19 +707,22 @@ func (p *provProfile) observe() {
 		if pi.checked {
 			s.Probe("pass-caught-up")
 		}
-		// C04 gate clause: no acknowledged, unlaunched, non-deleting NodeClaim while a pass runs
+		// C04 gate clause: no unlaunched, non-deleting NodeClaim that Karpenter knows of while a pass runs. It knows of
+		// a NodeClaim whose creation was acknowledged to this incarnation, and of every NodeClaim its caches and state
+		// controllers have caught up on (that covers NodeClaims created before a restart).
 		for _, nc := range pi.ncs {
-			if inc, ok := p.ackedNC[nc.Name]; ok && inc == s.inc && nc.Status.ProviderID == "" && nc.DeletionTimestamp == nil {
-				if !condUnknownOrTrueLaunched(nc) {
-					continue
-				}
+			if nc.Status.ProviderID != "" || nc.DeletionTimestamp != nil {
+				continue
+			}
+			if inc, ok := p.ackedNC[nc.Name]; ok && inc == s.inc {
 				s.Violate("C04", "pass-while-unlaunched", "a scheduling pass started while NodeClaim %s, whose creation was acknowledged to this incarnation, is neither launched nor deleting", nc.Name)
+			} else if pi.checked && s.cache.Get(gvkNodeClaim, types.NamespacedName{Name: nc.Name}) != nil {
+				s.Violate("C04", "pass-while-unlaunched", "a scheduling pass started while NodeClaim %s, which Karpenter's caches and cluster state had caught up on, is neither launched nor deleting", nc.Name)
 			}
 		}
 	}
 }
 
-func condUnknownOrTrueLaunched(nc *v1.NodeClaim) bool { return true }
 
 var nominatedTarget = func(msg string) (kind, name string) {
 	// "Pod should schedule on: nodeclaim/x, node/y"
@@ -927,6 +951,10 @@ func (p *provProfile) checkPass(pi *passInfo) {
 				if q := findPod(pi.pods, uid); q != nil {
 					b, _ := json.Marshal(q.Spec.Containers[0].Resources.Requests)
 					names = append(names, q.Name+string(b))
+					if os.Getenv("VERIF_DEBUG_PASS") == "2" {
+						sb, _ := json.Marshal(q.Spec)
+						fmt.Fprintf(os.Stderr, "  spec %s %s\n", q.Name, sb)
+					}
 				}
 			}
 			fmt.Fprintf(os.Stderr, "  placed %s <- %v\n", k, names)
@@ -967,7 +995,24 @@ func (p *provProfile) checkPass(pi *passInfo) {
 			}
 			s.Probe("c01-existing-placement")
 			if why := Admit(pod, &node, pi.sv); why != "" {
-				s.Violate("C01", "existing-node-inadmissible", "pod %s was placed on %s (%s) but Kubernetes would not admit it there: %s", pod.Name, target, mn.Meta, why)
+				oracle := "existing-node-inadmissible"
+				if k := contradictoryKeyMissingOn(pod, mn.Labels); k != "" {
+					// a narrower class with its own name: the pod's own requirements on label k contradict each other (no
+					// node can satisfy them) and the node does not carry k at all
+					oracle = "existing-node-inadmissible/contradictory-requirement-on-absent-label"
+					why += fmt.Sprintf(" (the pod's requirements on %s exclude every value; the node has no such label)", k)
+				} else if k := p.topologyKeyAcquired(pi, target, pod, mn.Labels); k != "" {
+					// follow-up of C02/node-without-topology-label: an earlier pod of the pass with a topology constraint on k
+					// was placed on this node, which does not carry k; the simulated node then "has" a domain for k
+					oracle = "existing-node-inadmissible/node-without-topology-label"
+					why += fmt.Sprintf(" (the node has no %s label; a pod with a topology constraint on it was placed there earlier in the pass)", k)
+				}
+				nsel, _ := json.Marshal(pod.Spec.NodeSelector)
+				var naff []byte
+				if pod.Spec.Affinity != nil && pod.Spec.Affinity.NodeAffinity != nil {
+					naff, _ = json.Marshal(pod.Spec.Affinity.NodeAffinity.RequiredDuringSchedulingIgnoredDuringExecution)
+				}
+				s.Violate("C01", oracle, "pod %s (nodeSelector %s, required node affinity %s) was placed on %s (%s) but Kubernetes would not admit it there: %s", pod.Name, nsel, naff, target, mn.Meta, why)
 				return
 			}
 			node.Pods = append(node.Pods, pod)
@@ -1104,6 +1149,127 @@ func targetedByAntiAffinity(q *corev1.Pod, pods []*corev1.Pod, nss nsView) bool 
 		}
 	}
 	return false
+}
+
+// contradictoryKeyMissingOn: a label key the node does not carry, which the pod's nodeSelector pins to a value that
+// some required or preferred node-affinity term excludes again (In without it, NotIn with it, DoesNotExist).
+func contradictoryKeyMissingOn(pod *corev1.Pod, labels map[string]string) string {
+	a := pod.Spec.Affinity
+	if a == nil || a.NodeAffinity == nil {
+		return ""
+	}
+	// required terms and preferred ones alike: until relaxed, Karpenter folds the heaviest preference into the requirements
+	var terms []corev1.NodeSelectorTerm
+	if r := a.NodeAffinity.RequiredDuringSchedulingIgnoredDuringExecution; r != nil {
+		terms = append(terms, r.NodeSelectorTerms...)
+	}
+	for _, pt := range a.NodeAffinity.PreferredDuringSchedulingIgnoredDuringExecution {
+		terms = append(terms, pt.Preference)
+	}
+	keys := make([]string, 0, len(pod.Spec.NodeSelector))
+	for k := range pod.Spec.NodeSelector {
+		keys = append(keys, k)
+	}
+	sort.Strings(keys)
+	for _, k := range keys {
+		v := pod.Spec.NodeSelector[k]
+		if _, has := labels[k]; has || len(terms) == 0 {
+			continue
+		}
+		// Karpenter works on one OR-ed term at a time (the first, then the next after relaxation): one excluding term is enough
+		any := false
+		for _, t := range terms {
+			excluded := false
+			for _, e := range t.MatchExpressions {
+				if e.Key != k {
+					continue
+				}
+				in := false
+				for _, x := range e.Values {
+					if x == v {
+						in = true
+					}
+				}
+				switch e.Operator {
+				case corev1.NodeSelectorOpIn:
+					excluded = excluded || !in
+				case corev1.NodeSelectorOpNotIn:
+					excluded = excluded || in
+				case corev1.NodeSelectorOpDoesNotExist:
+					excluded = true
+				}
+			}
+			if excluded {
+				any = true
+			}
+		}
+		if any {
+			return k
+		}
+	}
+	return ""
+}
+
+// topologyKeyAcquired: a key the pod's nodeSelector needs, the node lacks, and some pod assigned to the same node in this
+// pass constrains as a topology key (pod (anti-)affinity or topology spread, required or preferred).
+func (p *provProfile) topologyKeyAcquired(pi *passInfo, target string, pod *corev1.Pod, labels map[string]string) string {
+	keys := make([]string, 0, len(pod.Spec.NodeSelector))
+	for k := range pod.Spec.NodeSelector {
+		if _, has := labels[k]; !has {
+			keys = append(keys, k)
+		}
+	}
+	sort.Strings(keys)
+	for _, k := range keys {
+		for _, uid := range pi.order[target] {
+			q := findPod(pi.pods, uid)
+			if q == nil || q.UID == pod.UID {
+				continue
+			}
+			// required and preferred alike (until relaxed, Karpenter enforces preferences and ScheduleAnyway spreads too)
+			terms := append(requiredAffTerms(q), requiredAntiTerms(q)...)
+			if a := q.Spec.Affinity; a != nil {
+				if a.PodAffinity != nil {
+					for _, w := range a.PodAffinity.PreferredDuringSchedulingIgnoredDuringExecution {
+						terms = append(terms, w.PodAffinityTerm)
+					}
+				}
+				if a.PodAntiAffinity != nil {
+					for _, w := range a.PodAntiAffinity.PreferredDuringSchedulingIgnoredDuringExecution {
+						terms = append(terms, w.PodAffinityTerm)
+					}
+				}
+			}
+			for _, t := range terms {
+				if t.TopologyKey == k {
+					return k
+				}
+			}
+			for _, c := range q.Spec.TopologySpreadConstraints {
+				if c.TopologyKey == k {
+					return k
+				}
+			}
+			// a node-affinity expression on k (e.g. NotIn) is merged into the simulated node's requirements as well
+			if a := q.Spec.Affinity; a != nil && a.NodeAffinity != nil {
+				var nts []corev1.NodeSelectorTerm
+				if r := a.NodeAffinity.RequiredDuringSchedulingIgnoredDuringExecution; r != nil {
+					nts = append(nts, r.NodeSelectorTerms...)
+				}
+				for _, pt := range a.NodeAffinity.PreferredDuringSchedulingIgnoredDuringExecution {
+					nts = append(nts, pt.Preference)
+				}
+				for _, nt := range nts {
+					for _, e := range nt.MatchExpressions {
+						if e.Key == k {
+							return k
+						}
+					}
+				}
+			}
+		}
+	}
+	return ""
 }
 
 func missingDaemons(mn *ModelNode, daemons []*corev1.Pod) []*corev1.Pod {
